@@ -7,59 +7,138 @@ package c21
 
 import (
 	"fmt"
+	"sort"
 	"strconv"
 	"strings"
+
+	"src.elv.sh/pkg/parse"
 )
 
-// val is a scalar (decimal string in elvish) or a list of scalars.
+// val is an elvish value of the generated programs: a string, a list or a map
+// with string keys (nested at will).
 type val struct {
-	list bool
-	n    int
-	xs   []int
+	kind byte // 's', 'l', 'm'
+	s    string
+	xs   []val
+	keys []string
+	vs   []val
 }
 
+func sv(s string) val { return val{kind: 's', s: s} }
+func nv(n int) val    { return sv(strconv.Itoa(n)) }
+func lv(xs ...val) val {
+	return val{kind: 'l', xs: xs}
+}
+
+func showStr(s string) string {
+	if s == "" {
+		return "''"
+	}
+	return s
+}
+
+// String is the canonical text (the Lean side's showVal): a string as itself,
+// [a;b] for a list, {k=v;…} for a map with the entries ordered by key.
 func (v val) String() string {
-	if !v.list {
-		return strconv.Itoa(v.n)
+	switch v.kind {
+	case 'l':
+		p := make([]string, len(v.xs))
+		for i, x := range v.xs {
+			p[i] = x.String()
+		}
+		return "[" + strings.Join(p, ";") + "]"
+	case 'm':
+		type kv struct{ k, v string }
+		es := make([]kv, len(v.keys))
+		for i, k := range v.keys {
+			es[i] = kv{showStr(k), v.vs[i].String()}
+		}
+		sort.Slice(es, func(i, j int) bool { return es[i].k < es[j].k })
+		p := make([]string, len(es))
+		for i, e := range es {
+			p[i] = e.k + "=" + e.v
+		}
+		return "{" + strings.Join(p, ";") + "}"
 	}
-	if len(v.xs) == 0 {
-		return "e"
-	}
-	p := make([]string, len(v.xs))
-	for i, x := range v.xs {
-		p[i] = strconv.Itoa(x)
-	}
-	return strings.Join(p, ".")
+	return showStr(v.s)
 }
 
 func (v val) elvish() string {
-	if !v.list {
-		return strconv.Itoa(v.n)
+	switch v.kind {
+	case 'l':
+		p := make([]string, len(v.xs))
+		for i, x := range v.xs {
+			p[i] = x.elvish()
+		}
+		return "[" + strings.Join(p, " ") + "]"
+	case 'm':
+		if len(v.keys) == 0 {
+			return "[&]"
+		}
+		p := make([]string, len(v.keys))
+		for i, k := range v.keys {
+			p[i] = "&" + parse.Quote(k) + "=" + v.vs[i].elvish()
+		}
+		return "[" + strings.Join(p, " ") + "]"
 	}
-	p := make([]string, len(v.xs))
-	for i, x := range v.xs {
-		p[i] = strconv.Itoa(x)
-	}
-	return "[" + strings.Join(p, " ") + "]"
+	return parse.Quote(v.s)
 }
 
-func (v val) eq(w val) bool { return v.String() == w.String() && v.list == w.list }
-
-func parseVal(list bool, s string) (val, error) {
-	if !list {
-		n, err := strconv.Atoi(s)
-		return val{n: n}, err
+func (v val) flat() bool {
+	for _, x := range v.xs {
+		if x.kind != 's' {
+			return false
+		}
 	}
-	v := val{list: true}
+	return v.kind == 'l'
+}
+
+// tokens: `n <str>` | `l <m> <str>…` | `L <m> <val>…` | `m <m> (<key> <val>)…`
+func (v val) tokens(out *[]string) {
+	switch {
+	case v.kind == 's':
+		*out = append(*out, "n", v.s)
+	case v.flat():
+		*out = append(*out, "l", strconv.Itoa(len(v.xs)))
+		for _, x := range v.xs {
+			*out = append(*out, x.s)
+		}
+	case v.kind == 'l':
+		*out = append(*out, "L", strconv.Itoa(len(v.xs)))
+		for _, x := range v.xs {
+			x.tokens(out)
+		}
+	default:
+		*out = append(*out, "m", strconv.Itoa(len(v.keys)))
+		for i, k := range v.keys {
+			*out = append(*out, k)
+			v.vs[i].tokens(out)
+		}
+	}
+}
+
+// mapSet: later entries win, as in a map literal.
+func (v *val) mapSet(k string, x val) {
+	for i, k2 := range v.keys {
+		if k2 == k {
+			v.vs[i] = x
+			return
+		}
+	}
+	v.keys = append(v.keys, k)
+	v.vs = append(v.vs, x)
+}
+
+func parseOldVal(list bool, s string) (val, error) {
+	if !list {
+		return sv(s), nil
+	}
+	v := lv()
 	if s == "e" {
 		return v, nil
 	}
 	for _, p := range strings.Split(s, ".") {
-		n, err := strconv.Atoi(p)
-		if err != nil {
-			return v, err
-		}
-		v.xs = append(v.xs, n)
+		v.xs = append(v.xs, sv(p))
 	}
 	return v, nil
 }
@@ -85,17 +164,48 @@ func (s slot) String() string {
 //	O  an ordinary elvish variable declared with `var` (unlogged, never fails)
 type varDecl struct {
 	kind byte
-	list bool
+	typ  byte // how the initial value is written: 's' string, 'l' flat list (1.2.3 / e), 'x' value tokens joined by '/'
 	init slot
 	mask uint
 }
 
 func (d varDecl) String() string {
-	t := "s"
-	if d.list {
-		t = "l"
+	txt := "-"
+	if d.init.set {
+		switch d.typ {
+		case 's':
+			txt = d.init.v.s
+		case 'l':
+			txt = "e"
+			if len(d.init.v.xs) > 0 {
+				p := make([]string, len(d.init.v.xs))
+				for i, x := range d.init.v.xs {
+					p[i] = x.s
+				}
+				txt = strings.Join(p, ".")
+			}
+		default:
+			var t []string
+			d.init.v.tokens(&t)
+			txt = strings.Join(t, "/")
+		}
 	}
-	return fmt.Sprintf("%c:%s:%s:%d", d.kind, t, d.init, d.mask)
+	return fmt.Sprintf("%c:%c:%s:%d", d.kind, d.typ, txt, d.mask)
+}
+
+// declFor picks the way of writing the initial value.
+func declFor(kind byte, init slot, mask uint) varDecl {
+	d := varDecl{kind: kind, typ: 's', init: init, mask: mask}
+	if init.set {
+		switch {
+		case init.v.kind == 's':
+		case init.v.flat():
+			d.typ = 'l'
+		default:
+			d.typ = 'x'
+		}
+	}
+	return d
 }
 
 func varName(decls []varDecl, x int) string {
@@ -114,24 +224,30 @@ func parseDecls(s string) ([]varDecl, error) {
 	var out []varDecl
 	for _, e := range strings.Split(s, ",") {
 		p := strings.Split(e, ":")
-		if len(p) != 4 || len(p[0]) != 1 || !strings.Contains("LUEO", p[0]) {
+		if len(p) != 4 || len(p[0]) != 1 || !strings.Contains("LUEO", p[0]) || len(p[1]) != 1 || !strings.Contains("slx", p[1]) {
 			return nil, fmt.Errorf("bad decl %q", e)
 		}
-		d := varDecl{kind: p[0][0], list: p[1] == "l"}
+		d := varDecl{kind: p[0][0], typ: p[1][0]}
 		if p[2] != "-" {
-			v, err := parseVal(d.list, p[2])
-			if err != nil {
-				return nil, err
+			var v val
+			if d.typ == 'x' {
+				r := &tokReader{t: strings.Split(p[2], "/")}
+				v = r.val()
+				if r.err != nil || r.pos != len(r.t) {
+					return nil, fmt.Errorf("bad decl %q", e)
+				}
+			} else {
+				v, _ = parseOldVal(d.typ == 'l', p[2])
 			}
 			d.init = slot{true, v}
 		}
 		m, err := strconv.Atoi(p[3])
-		if err != nil {
-			return nil, err
+		if err != nil || m < 0 {
+			return nil, fmt.Errorf("bad decl %q", e)
 		}
 		d.mask = uint(m)
 		// only unsettable variables can start unset; environment variables hold strings
-		if !d.init.set && (d.kind == 'L' || d.kind == 'O') || d.list && d.kind == 'E' {
+		if !d.init.set && (d.kind == 'L' || d.kind == 'O') || d.init.set && d.init.v.kind != 's' && d.kind == 'E' {
 			return nil, fmt.Errorf("bad decl %q", e)
 		}
 		out = append(out, d)
@@ -139,15 +255,36 @@ func parseDecls(s string) ([]varDecl, error) {
 	return out, nil
 }
 
+// lval: variable x, or its element x[idx[0]]…[idx[n-1]].
 type lval struct {
-	x    int
-	elem bool
-	i    int
+	x   int
+	idx []string
 }
 
+func (l lval) elem() bool { return len(l.idx) > 0 }
+
+// group: `lvs… = vals…`; rest = position of the `@` lvalue or -1.
 type group struct {
 	lvs  []lval
+	rest int
 	vals []val
+}
+
+// restValues: which value each lvalue gets (false = arity mismatch).
+func (g group) restValues() ([]val, bool) {
+	nv := len(g.lvs)
+	if g.rest < 0 {
+		return g.vals, nv == len(g.vals)
+	}
+	if len(g.vals) < nv-1 {
+		return nil, false
+	}
+	m := len(g.vals) + 1 - nv
+	var out []val
+	out = append(out, g.vals[:g.rest]...)
+	out = append(out, lv(append([]val(nil), g.vals[g.rest:g.rest+m]...)...))
+	out = append(out, g.vals[g.rest+m:]...)
+	return out, true
 }
 
 // stmt: op is one of
@@ -155,6 +292,7 @@ type group struct {
 //	M mark            P peek x          A assignment (tmp or set)
 //	W with            D defer           F fail n     B break  C continue  R return
 //	K call (n=1: through `fn`, n=0: lambda)          L for (n iterations)   T try
+//	I if (n = shape: 0 if-true, 1 else, 2 elif, 3 not taken)                 H while (n iterations)
 type stmt struct {
 	op     byte
 	k      int
@@ -167,23 +305,23 @@ type stmt struct {
 
 func (g group) tokens(out *[]string) {
 	*out = append(*out, strconv.Itoa(len(g.lvs)))
-	for _, l := range g.lvs {
-		if l.elem {
-			*out = append(*out, "e", strconv.Itoa(l.x), strconv.Itoa(l.i))
-		} else {
+	for i, l := range g.lvs {
+		if i == g.rest {
+			*out = append(*out, "@")
+		}
+		switch len(l.idx) {
+		case 0:
 			*out = append(*out, "v", strconv.Itoa(l.x))
+		case 1:
+			*out = append(*out, "e", strconv.Itoa(l.x), l.idx[0])
+		default:
+			*out = append(*out, "i", strconv.Itoa(l.x), strconv.Itoa(len(l.idx)))
+			*out = append(*out, l.idx...)
 		}
 	}
 	*out = append(*out, strconv.Itoa(len(g.vals)))
 	for _, v := range g.vals {
-		if v.list {
-			*out = append(*out, "l", strconv.Itoa(len(v.xs)))
-			for _, x := range v.xs {
-				*out = append(*out, strconv.Itoa(x))
-			}
-		} else {
-			*out = append(*out, "n", strconv.Itoa(v.n))
-		}
+		v.tokens(out)
 	}
 }
 
@@ -216,16 +354,17 @@ func (s *stmt) tokens(out *[]string) {
 		blockTokens(s.body, out)
 	case 'F':
 		*out = append(*out, strconv.Itoa(s.n))
-	case 'K', 'L':
+	case 'K', 'L', 'I', 'H':
 		*out = append(*out, strconv.Itoa(s.n))
 		blockTokens(s.body, out)
 	}
 }
 
 type tokReader struct {
-	t   []string
-	pos int
-	err error
+	t     []string
+	pos   int
+	err   error
+	depth int
 }
 
 func (r *tokReader) next() string {
@@ -252,32 +391,76 @@ func (r *tokReader) int() int {
 	return n
 }
 
+func (r *tokReader) val() val {
+	r.depth++
+	defer func() { r.depth-- }()
+	if r.depth > 50 {
+		r.err = fmt.Errorf("value too deep")
+		return val{}
+	}
+	switch r.next() {
+	case "n":
+		return sv(r.next())
+	case "l":
+		v := lv()
+		for m := r.int(); m > 0 && r.err == nil; m-- {
+			v.xs = append(v.xs, sv(r.next()))
+		}
+		return v
+	case "L":
+		v := lv()
+		for m := r.int(); m > 0 && r.err == nil; m-- {
+			v.xs = append(v.xs, r.val())
+		}
+		return v
+	case "m":
+		v := val{kind: 'm'}
+		for m := r.int(); m > 0 && r.err == nil; m-- {
+			k := r.next()
+			v.mapSet(k, r.val())
+		}
+		return v
+	}
+	if r.err == nil {
+		r.err = fmt.Errorf("bad value")
+	}
+	return val{}
+}
+
 func (r *tokReader) group() group {
-	var g group
-	for n := r.int(); n > 0 && r.err == nil; n-- {
-		switch r.next() {
+	g := group{rest: -1}
+	for n, i := r.int(), 0; n > 0 && r.err == nil; n, i = n-1, i+1 {
+		t := r.next()
+		if t == "@" {
+			if g.rest >= 0 {
+				r.err = fmt.Errorf("two rest lvalues")
+			}
+			g.rest = i
+			t = r.next()
+		}
+		switch t {
 		case "v":
 			g.lvs = append(g.lvs, lval{x: r.int()})
 		case "e":
 			x := r.int()
-			g.lvs = append(g.lvs, lval{x: x, elem: true, i: r.int()})
+			g.lvs = append(g.lvs, lval{x: x, idx: []string{r.next()}})
+		case "i":
+			l := lval{x: r.int()}
+			for m := r.int(); m > 0 && r.err == nil; m-- {
+				l.idx = append(l.idx, r.next())
+			}
+			if len(l.idx) == 0 && r.err == nil {
+				r.err = fmt.Errorf("no index")
+			}
+			g.lvs = append(g.lvs, l)
 		default:
-			r.err = fmt.Errorf("bad lvalue")
+			if r.err == nil {
+				r.err = fmt.Errorf("bad lvalue")
+			}
 		}
 	}
 	for n := r.int(); n > 0 && r.err == nil; n-- {
-		switch r.next() {
-		case "n":
-			g.vals = append(g.vals, val{n: r.int()})
-		case "l":
-			v := val{list: true}
-			for m := r.int(); m > 0 && r.err == nil; m-- {
-				v.xs = append(v.xs, r.int())
-			}
-			g.vals = append(g.vals, v)
-		default:
-			r.err = fmt.Errorf("bad value")
-		}
+		g.vals = append(g.vals, r.val())
 	}
 	return g
 }
@@ -313,7 +496,7 @@ func (r *tokReader) stmt() *stmt {
 		s.body = r.block()
 	case 'F':
 		s.n = r.int()
-	case 'K', 'L':
+	case 'K', 'L', 'I', 'H':
 		s.n = r.int()
 		s.body = r.block()
 	default:
@@ -337,22 +520,26 @@ func (p *program) fields() []string {
 	return []string{"run", strings.Join(d, ","), strings.Join(toks, " ")}
 }
 
-// wellTyped mirrors the Lean driver's check: scalar variables only get
-// scalars, list variables only lists, element assignment only on list
-// variables and only with scalar values.  (Elvish itself is untyped; the
-// restriction keeps string-splicing element assignment out of the model.)
+// wellTyped mirrors the Lean driver's check: variables are declared; an
+// environment variable is only assigned as a whole, with a string, and is not
+// a rest lvalue (envVariable.Set refuses other values — not modelled).
 func (p *program) wellTyped() bool {
 	ok := true
 	var walk func(b []*stmt)
+	isEnv := func(x int) bool { return p.decls[x].kind == 'E' }
 	chk := func(g group) {
-		for _, l := range g.lvs {
-			if l.x >= len(p.decls) || (l.elem && !p.decls[l.x].list) {
+		for i, l := range g.lvs {
+			if l.x >= len(p.decls) {
+				ok = false
+				return
+			}
+			if isEnv(l.x) && (l.elem() || i == g.rest) {
 				ok = false
 			}
 		}
-		if len(g.lvs) == len(g.vals) && ok {
+		if vs, fits := g.restValues(); fits {
 			for i, l := range g.lvs {
-				if l.elem && g.vals[i].list || !l.elem && g.vals[i].list != p.decls[l.x].list {
+				if isEnv(l.x) && vs[i].kind != 's' {
 					ok = false
 				}
 			}
@@ -374,7 +561,7 @@ func (p *program) wellTyped() bool {
 }
 
 func parseProgram(f []string) (*program, error) {
-	if len(f) != 3 || f[0] != "run" {
+	if len(f) < 3 || f[0] != "run" && f[0] != "acc" {
 		return nil, fmt.Errorf("bad op")
 	}
 	d, err := parseDecls(f[1])
@@ -400,15 +587,18 @@ func parseProgram(f []string) (*program, error) {
 
 func (p *program) lvText(l lval) string {
 	n := varName(p.decls, l.x)
-	if l.elem {
-		return fmt.Sprintf("%s[%d]", n, l.i)
+	for _, i := range l.idx {
+		n += "[" + parse.Quote(i) + "]"
 	}
 	return n
 }
 
 func (p *program) groupText(g group) string {
 	var sb strings.Builder
-	for _, l := range g.lvs {
+	for i, l := range g.lvs {
+		if i == g.rest {
+			sb.WriteByte('@')
+		}
 		sb.WriteString(p.lvText(l))
 		sb.WriteByte(' ')
 	}
@@ -440,7 +630,7 @@ func (p *program) emitBlock(sb *strings.Builder, body []*stmt, k, d int) {
 			}
 			fmt.Fprintf(sb, "%s%s %s\n", ind, kw, p.groupText(s.groups[0]))
 		case 'W':
-			if len(s.groups) == 1 && s.k%2 == 0 && len(s.groups[0].lvs) > 0 && !s.groups[0].lvs[0].elem {
+			if len(s.groups) == 1 && s.k%2 == 0 && len(s.groups[0].lvs) > 0 && !s.groups[0].lvs[0].elem() {
 				// (the unbracketed form rejects an element as its first lvalue at compile time)
 				fmt.Fprintf(sb, "%swith %s {\n", ind, p.groupText(s.groups[0]))
 			} else {
@@ -476,6 +666,27 @@ func (p *program) emitBlock(sb *strings.Builder, body []*stmt, k, d int) {
 			}
 		case 'L':
 			fmt.Fprintf(sb, "%sfor _ [%s] {\n", ind, strings.TrimSpace(strings.Repeat("a ", s.n)))
+			p.emitBlock(sb, s.body, s.k, d+1)
+			fmt.Fprintf(sb, "%s}\n", ind)
+		case 'I':
+			switch s.n {
+			case 0:
+				fmt.Fprintf(sb, "%sif $true {\n", ind)
+			case 1:
+				fmt.Fprintf(sb, "%sif $false { } else {\n", ind)
+			case 2:
+				fmt.Fprintf(sb, "%sif $false { } elif $true {\n", ind)
+			default:
+				fmt.Fprintf(sb, "%sif $false {\n", ind)
+			}
+			p.emitBlock(sb, s.body, s.k, d+1)
+			if s.n == 2 {
+				fmt.Fprintf(sb, "%s} else { }\n", ind)
+			} else {
+				fmt.Fprintf(sb, "%s}\n", ind)
+			}
+		case 'H':
+			fmt.Fprintf(sb, "%svar w%d = (ticker %d)\n%swhile ($w%d) {\n", ind, s.k, s.n, ind, s.k)
 			p.emitBlock(sb, s.body, s.k, d+1)
 			fmt.Fprintf(sb, "%s}\n", ind)
 		case 'T':
